@@ -1,6 +1,8 @@
 """C07 - measure ranges partition the score (measure-partition checker + stage observation)."""
 from __future__ import annotations
 
+import random
+
 from ..common import Ctx
 from ..gen.workload import cases
 from .. import kpx
@@ -22,7 +24,7 @@ def classify_exception(doc, exc):
     return 'range-raises'
 
 
-def one(ctx: Ctx, cs, pname, over, core=True):
+def one(ctx: Ctx, cs, pname, over, core=True, derive=None):
     from ..monitors import stages
     doc, _ = MC.build(cs, pname, over)
     x = doc.text(0)
@@ -32,6 +34,10 @@ def one(ctx: Ctx, cs, pname, over, core=True):
     if exc is not None or e:
         ctx.mon('precondition_failed')
         return
+    if derive:
+        d = MC.derive_document(ctx, d, doc, x, cs, derive)
+        if d is None:
+            return
     kw = {'spine_types': ['**kern']} if set(doc.headers) != {'**kern'} else {}
     sc = MC.Score(doc, d, kw)
     if not sc.ok:
@@ -39,7 +45,7 @@ def one(ctx: Ctx, cs, pname, over, core=True):
         return
     ctx.cls(*sorted(doc.tags))
     ctx.cls('core' if core else 'explored')
-    case = {'case_seed': cs, 'profile': pname, 'over': over, 'core': core, 'text': x}
+    case = {'case_seed': cs, 'profile': pname, 'over': over, 'core': core, 'text': x, 'derive': derive}
     M = sc.M
     # measure count and iteration
     ctx.ev()
@@ -85,7 +91,6 @@ def one(ctx: Ctx, cs, pname, over, core=True):
         ctx.violation('iteration', f'iteration protocol raised {type(ex).__name__}: {ex}', case)
     pickup = 'pickup' in doc.tags or 'no_opening_barline' in doc.tags
     stages.drain()
-    import random
     prng = random.Random(cs ^ 0xC07)
     pairs = MC.sample_pairs(M, prng)
     if M > 14:
@@ -200,6 +205,10 @@ def run(ctx: Ctx):
         pname, over = MC.profiles(ctx.tier)[i % len(MC.profiles(ctx.tier))]
         one(ctx, cs, pname, over, core=True)
         i += 1
+    # derived documents (clone / to_transposed / concat result) of core scores
+    for k_, cs in enumerate(cases(ctx, 'c07-derived', n_core // 3)):
+        pname, over = MC.profiles(ctx.tier)[k_ % 8]
+        one(ctx, cs, pname, over, core=True, derive=['transposed', 'concat', 'clone'][k_ % 3])
     # one score of more than 1000 lines (ranges that start beyond line 1000 under the default recursion limit)
     for cs in cases(ctx, 'c07-long', 1 if ctx.tier == 'quick' else 3):
         ctx.mon('long_documents')
@@ -221,5 +230,5 @@ def post_merge(ctx):
 
 def replay(ctx, w):
     case = w.get('case', w)
-    one(ctx, case['case_seed'], case['profile'], case.get('over', {}), core=case.get('core', True))
+    one(ctx, case['case_seed'], case['profile'], case.get('over', {}), core=case.get('core', True), derive=case.get('derive'))
     print(case.get('text', ''))
